@@ -477,6 +477,7 @@ def transforms(rng, g):
         out.append(('reverse_holes', ('MPG', [p[:1] + p[1:][::-1] for p in g[1]])))
     if g[0] in ('MPG', 'MLS', 'MPT', 'GC') and len(g[1]) > 1:
         el = list(g[1]); rng.shuffle(el); out.append(('permute_elements', (g[0], el)))
+        out.append(('reverse_elements', (g[0], list(g[1])[::-1])))
     return [(k, t) for k, t in out if in_bounds(t)]
 
 
@@ -972,6 +973,56 @@ def gen_single_defect(rng):
     return ('single:' + kind, intended, map_pts(g, lambda p: (f(p)[0] + dx, f(p)[1] + dy)))
 
 
+
+# ------------------------------------------------------------------ EMPTY elements / rings interleaved with each kind of defect
+def gen_with_empties(rng):
+    """a defect (or control) geometry from the other families, re-wrapped so that EMPTY elements / EMPTY holes / EMPTY lines / EMPTY
+    collection members stand before, between and after the elements that carry the defect; far-away innocent elements are added too"""
+    c = rng.random()
+    if c < 0.45:
+        src = gen_single_defect(rng)
+    elif c < 0.85:
+        src = constructed(rng)
+        src = ('con:' + src[0], src[1], src[2])
+    else:
+        r = gen_convex(rng, rng.randint(3, 7), 12)
+        src = r and mutate(rng, scale(('PG', [r]), 6))
+        src = src and ('mut:' + src[0], src[1], src[2])
+    if not src: return None
+    label, intended, g = src
+    if has_nonfinite(g): return None
+    def far_square():
+        pts = all_pts(g); m = max([abs(v) for p in pts for v in p] + [1])
+        return [square(3 * m + 10, 3 * m + 10, 3 * m + 20, 3 * m + 20)]
+    def interleave(items, empty, extra=None):
+        out = list(items)
+        if extra is not None and rng.random() < 0.6: out.insert(rng.randint(0, len(out)), extra)
+        for _ in range(rng.randint(1, 2)): out.insert(rng.randint(0, len(out)), empty)
+        if rng.random() < 0.5: out.insert(0, empty)          # always also exercised: EMPTY first
+        return out
+    t = g[0]
+    if t in ('PG', 'MPG'):
+        polys = [g[1]] if t == 'PG' else list(g[1])
+        polys = [p for p in polys if p]
+        if not polys: return None
+        if rng.random() < 0.4:       # EMPTY holes inside the elements as well
+            polys = [[p[0]] + interleave(p[1:], []) if len(p[0]) > 0 else p for p in polys]
+        out = ('MPG', interleave(polys, [], far_square()))
+        if rng.random() < 0.25:
+            out = ('GC', interleave([out], rng.choice([('PT', None), ('LS', []), ('PG', []), ('MPG', []), ('GC', [])])))
+    elif t in ('LS', 'MLS'):
+        ls = [g[1]] if t == 'LS' else list(g[1])
+        out = ('MLS', interleave(ls, []))
+        if t == 'LS' and intended and intended != 'valid': intended = None
+    elif t == 'LR':
+        out = ('GC', interleave([g], rng.choice([('LR', []), ('PG', []), ('PT', None)])))
+    elif t == 'MPT':
+        out = ('MPT', interleave(list(g[1]), None))
+    else:
+        out = ('GC', interleave([g] if t != 'GC' else list(g[1]), rng.choice([('PT', None), ('LS', []), ('PG', []), ('MPG', []), ('GC', [])])))
+    return ('empties:' + label, intended, out)
+
+
 # ------------------------------------------------------------------ case generation
 def gen_cases(ctx, runner, n_target):
     rng = ctx.rng
@@ -1063,6 +1114,11 @@ def gen_cases(ctx, runner, n_target):
         sd = gen_single_defect(rng)
         if sd is not None and constructible(sd[2]) and in_bounds(sd[2]):
             cases.append(dict(label=sd[0], intended=sd[1], g=sd[2], derive_all=True))
+    # every kind of defect with EMPTY elements / rings / members before, between and after; all derived copies are generated
+    for _ in range(2 * n_each):
+        we = gen_with_empties(rng)
+        if we is not None and constructible(we[2]) and in_bounds(we[2]):
+            cases.append(dict(label=we[0], intended=we[1], g=we[2], derive_all=True))
     # elements inside holes of other elements (holes with overlapping / nested envelopes); all derived copies are generated
     for _ in range(2 * n_each):
         g = gen_elements_in_holes(rng)
